@@ -134,4 +134,31 @@ def XInstr.observe (m : Mem) : XInstr → List Val
 /-- two memories hold the same contents in every region of `S` -/
 def AgreeOn (S : Region → Prop) (m m' : Mem) : Prop := ∀ r, S r → ∀ k, m r k = m' r k
 
+/-- every cell is either equal in `n`,`n'` or untouched relative to the bases `m`,`m'` -/
+def SameOrUntouched (m m' n n' : Mem) : Prop := ∀ r k, n r k = n' r k ∨ (n r k = m r k ∧ n' r k = m' r k)
+
+theorem rel_refl (m m' : Mem) : SameOrUntouched m m' m m' := fun _ _ => Or.inr ⟨rfl, rfl⟩
+
+theorem rel_upd {m m' n n' : Mem} (h : SameOrUntouched m m' n n') (c : Ref) {v v' : Val} (hv : v = v') :
+    SameOrUntouched m m' (upd n c v) (upd n' c v') := by
+  intro r k
+  unfold upd
+  by_cases hc : r = c.region ∧ k = c.index
+  · simp [hc, hv]
+  · simp only [hc, if_false]; exact h r k
+
+/-- an executable expression of shape `e`: indices 0, unary operators the identity, binary `+` -/
+def liftE : E → Ex
+  | .addr r => .addr ⟨r, 0⟩
+  | .leaf => .const 0
+  | .un e => .un id (liftE e)
+  | .bin l r => .bin (· + ·) (liftE l) (liftE r)
+
+/-- number of `Address` leaves of region `r` -/
+def count (r : Region) : E → Nat
+  | .addr x => if x = r then 1 else 0
+  | .leaf => 0
+  | .un e => count r e
+  | .bin l x => count r l + count r x
+
 end QV.C27.Sem
